@@ -242,8 +242,13 @@ func groupsKept(r *parseProviderTypeResult) bool {
 
 //kvc:axiom
 func axiomTypeListsAndTuples() bool {
-	return vs.ForallRef(func(l *types.TypeList) bool { return l.Len() >= 0 }) &&
-		vs.ForallRef(func(t *types.Tuple) bool { return t.Len() >= 0 && t.Len() < 1<<30 })
+	return vs.ForallRef(func(l *types.TypeList) bool { return l.Len() >= 0 && l.Len() < 1<<30 }) &&
+		vs.ForallRef(func(t *types.Tuple) bool { return t.Len() >= 0 && t.Len() < 1<<30 }) &&
+		vs.ForallRef(func(t *types.Interface) bool { return t.NumMethods() >= 0 && t.NumMethods() < 1<<30 }) &&
+		vs.ForallRef(func(t *types.Struct) bool { return t.NumFields() >= 0 && t.NumFields() < 1<<30 }) &&
+		vs.ForallRef(func(c *types.Chan) bool {
+			return c.Dir() == types.SendRecv || c.Dir() == types.SendOnly || c.Dir() == types.RecvOnly
+		})
 }
 
 //kvc:contract (*Parser).parseProviderType
